@@ -13,6 +13,8 @@ from . import build, findings, worker
 from .rng import Rng
 
 VERIF = build.VERIF
+# where evidence/ and replay/ are written (redirected for self-validation runs against mutants)
+OUT = os.environ.get("VERIF_OUT", VERIF)
 NCPU = min(16, os.cpu_count() or 1)
 
 
@@ -215,7 +217,7 @@ def run_property(mod, tier, seed, replay=None):
 
     # replay files
     viol_lines = []
-    rdir = os.path.join(VERIF, "replay", prop)
+    rdir = os.path.join(OUT, "replay", prop)
     for sig, v in sorted(violations.items()):
         os.makedirs(rdir, exist_ok=True)
         path = os.path.join(rdir, "%016x.json" % h64(sig))
@@ -247,8 +249,8 @@ def run_property(mod, tier, seed, replay=None):
         "wall_s": round(wall, 2),
         "violations": len(violations),
     }
-    os.makedirs(os.path.join(VERIF, "evidence"), exist_ok=True)
-    with open(os.path.join(VERIF, "evidence", prop + ".json"), "w") as f:
+    os.makedirs(os.path.join(OUT, "evidence"), exist_ok=True)
+    with open(os.path.join(OUT, "evidence", prop + ".json"), "w") as f:
         json.dump(ev, f, indent=1, default=str)
 
     print("%s tier=%s seed=%d evaluations=%d distinct_nontrivial=%d wall=%.1fs" % (
